@@ -166,15 +166,25 @@ def gen_schedules(rep, quick, seed, want):
                 order.append(groups[g].pop())
     rng.shuffle(sim)
     rng.shuffle(allseq)
-    per = 1 if quick else 2
-    picked = order[:want] + sim[:want // 6] + allseq[:want // 2]
+    if quick:
+        picked = order[:want] + sim[:want // 6]
+    else:
+        picked = order + sim + allseq[:want // 2]      # thorough: every edge scenario
     out = []
-    k = rng.randrange(len(cfgs))
-    for b in picked:
-        for _ in range(per):
-            c = cfgs[k % len(cfgs)]
+    ll = [c for c in cfgs if c in lossless]
+    k, kl = rng.randrange(len(cfgs)), rng.randrange(len(ll))
+
+    def with_cfg(b, c):
+        return [dict(op="new", a=c["a"], n=c["n"], w=c["w"], par=c["par"], buf=c["buf"])] + b[1:]
+    for i, b in enumerate(picked):
+        # every scenario runs on a lossless configuration (all of C08 is judged there) ...
+        if not quick or i % 2 == 0:
+            out.append(with_cfg(b, ll[kl % len(ll)]))
+            kl += 1
+        # ... and on one drawn from all configurations (round robin: every option set gets its share)
+        if not quick or i % 2 == 1:
+            out.append(with_cfg(b, cfgs[k % len(cfgs)]))
             k += 1
-            out.append([dict(op="new", a=c["a"], n=c["n"], w=c["w"], par=c["par"], buf=c["buf"])] + b[1:])
     rep.cov["scenarios_generated"] = dict(edge=len(scen), simulated=len(sim), all_sequences=len(allseq), configs=len(cfgs),
                                           executed=len(out))
     return out, lossless
@@ -250,11 +260,11 @@ def key_fn(hist, info):
     return key
 
 
-def judge(rep, hists, cfg, label, shards=8, relaxed_cfg=None, known_prefix="broker/exactly-once/unsubscribe-window"):
-    """Validate histories; histories that show only the unsubscribe-window finding are judged again with the narrowed
-    window so that the rest of their obligations is still checked."""
+def judge(rep, hists, cfg, label, shards=8, max_violations=12):
+    """Validate histories with BrokerTrace; every rejection was re-validated alone by validate_all."""
     before = len(rep.violations)
-    trace.validate_all(rep, COMP, "BrokerTrace", cfg, hists, label=label, shards=shards, key_fn=key_fn, max_violations=40)
+    trace.validate_all(rep, COMP, "BrokerTrace", cfg, hists, label=label, shards=shards, key_fn=key_fn,
+                       max_violations=max_violations)
     for v in rep.violations[before:]:
         h = v[2].get("history") if isinstance(v[2], dict) else None
         if id(h) in SCHED_OF:
@@ -262,11 +272,17 @@ def judge(rep, hists, cfg, label, shards=8, relaxed_cfg=None, known_prefix="brok
         if id(h) in RECORD_OF:
             v[2]["record"] = RECORD_OF[id(h)]
         v[2]["trace_cfg"] = cfg
-    if relaxed_cfg:
-        again = [v[2]["history"] for v in rep.violations[before:] if v[0].startswith(known_prefix)]
-        if again:
-            trace.validate_all(rep, COMP, "BrokerTrace", relaxed_cfg, again, label=label + "/narrowed-window", shards=shards,
-                               key_fn=key_fn, max_violations=40)
+
+
+def judge_delivery(rep, hists, label, shards=8):
+    """C08.  All histories are judged with the window narrowed to subscribers that never call Unsubscribe (so that
+    the known unsubscribe-window finding does not end the validation of the others early); the histories in which
+    the two windows can differ - lossless, with an Unsubscribe call - are then judged with the window of DESIGN 5.0."""
+    judge(rep, hists, "Trace_c08_relaxed.cfg", label, shards=shards)
+    cand = [h for h in hists if lossless(h) and any(e.get("op") == "unsub" for e in h)]
+    if cand:
+        judge(rep, cand, "Trace_c08.cfg", label + "/unsubscribe-window", shards=shards, max_violations=3)
+    rep.cov["histories_with_unsubscribe_judged_with_full_window"] = rep.cov.get("histories_with_unsubscribe_judged_with_full_window", 0) + len(cand)
 
 
 def mutate_selftests(rep, hists, tests, tries=6):
@@ -307,5 +323,8 @@ def replay_file(rep, path, cfgs):
         hs = [o["hist"] for o in outs if "hist" in o]
     else:
         hs = [obj["history"]]
-    for cfg in cfgs:
-        judge(rep, hs, cfg, "replay", shards=2)
+    if cfgs is None:
+        judge_delivery(rep, hs, "replay", shards=2)
+    else:
+        for cfg in cfgs:
+            judge(rep, hs, cfg, "replay", shards=2)
